@@ -199,8 +199,11 @@ def build_circuit(edzed, case, hist, state):
             async def icoro():
                 await asyncio.sleep(2.0)
                 return 'async-value'
-            objs['ia'] = edzed.InitAsync('ia', init_coro=[icoro], init_timeout=9,
-                                         on_output=edzed.Event('inp', 'put'))
+            objs['ia'] = edzed.InitAsync('ia', init_coro=[icoro], init_timeout=9, on_output=[
+                edzed.Event('inp', 'put'), edzed.Event('pin', 'put')])
+            # persistent, nothing stored, no initdef: stays uninitialised (get_state() raises)
+            # until the InitAsync block delivers a value at t=2
+            objs['pin'] = edzed.Input('pin', persistent=True)
         objs['inp'] = edzed.Input('inp', initdef=0, persistent=True)
         objs['x'] = edzed.Input('x', initdef=(1 if fault == ('fb', 'first_eval') else 0))
 
